@@ -32,6 +32,9 @@ pub struct CrashSpec {
     pub keys: Vec<KeyId>,
     /// every byte of un-synced regions up to this size; larger regions: both ends and page boundaries
     pub fine_limit: usize,
+    /// second level (a kill during the recovery itself): number of first-level states per history
+    /// whose recovery is recorded and cut after every file operation (kill states first)
+    pub second_level_parents: usize,
 }
 
 impl CrashSpec {
@@ -44,6 +47,7 @@ impl CrashSpec {
             history,
             keys: vec![0, 1, 2],
             fine_limit: 8192,
+            second_level_parents: 0,
         }
     }
 }
@@ -128,6 +132,57 @@ fn record(spec: &CrashSpec) -> Result<Recorded, String> {
     Ok(Recorded { events, dir, outcomes })
 }
 
+/// The file operations of one recovery (`init` + background work until quiescence) from `state`.
+async fn record_recovery_task(cfg: WCfg, state: State) -> PathBuf {
+    let dir = world::fresh_dir();
+    materialise(&state, &dir);
+    ctl::with_ctl(|c| c.log.borrow_mut().mark("recovery-begin"));
+    if let Ok(mut w) = World::<K4>::open(dir.clone(), cfg, false).await {
+        ctl::quiesce().await;
+        ctl::with_ctl(|c| c.log.borrow_mut().mark("recovery-done"));
+        let _ = w.close().await;
+    } else {
+        ctl::with_ctl(|c| c.log.borrow_mut().mark("recovery-done"));
+    }
+    dir
+}
+
+fn record_recovery(cfg: &WCfg, state: &State, io_mode: IoMode) -> Result<(Vec<Ev>, PathBuf), String> {
+    let mut ccfg = CtlConfig::sequential(io_mode);
+    ccfg.auto_clock = None;
+    let (c, s) = (cfg.clone(), state.clone());
+    let exec = ctl::execute(ccfg, &[], None, move || record_recovery_task(c, s));
+    let dir = exec.result.map_err(|e| format!("recording of a recovery failed: {e}"))?;
+    let mut events = Vec::new();
+    let mut on = false;
+    for e in &exec.ctl.log.borrow().entries {
+        match e {
+            Entry::Mark(m) if m == "recovery-begin" => on = true,
+            Entry::Mark(m) if m == "recovery-done" => break,
+            Entry::Io { ev, faulted: false, .. } if on => match &ev.op {
+                IoOp::Open { existed: false, .. } => events.push(Ev::Create(ev.path.clone())),
+                IoOp::Write { offset, data, .. } => events.push(Ev::Write { path: ev.path.clone(), offset: *offset, data: data.clone() }),
+                IoOp::Sync { .. } => events.push(Ev::Sync(ev.path.clone())),
+                IoOp::Truncate => events.push(Ev::Truncate(ev.path.clone())),
+                IoOp::Rename { to } => events.push(Ev::Rename(ev.path.clone(), to.clone())),
+                IoOp::Remove => events.push(Ev::Remove(ev.path.clone())),
+                _ => {}
+            },
+            _ => {}
+        }
+    }
+    world::remove_dir(&dir);
+    Ok((events, dir))
+}
+
+fn simfs_of(state: &State) -> SimFs {
+    let mut fs = SimFs::default();
+    for (n, c) in state {
+        fs.files.insert(n.clone(), SimFile { data: c.clone(), synced: c.len(), pending: vec![], durable: c.clone() });
+    }
+    fs
+}
+
 // ---------------------------------------------------------------------------------------------
 // Simulated file system
 // ---------------------------------------------------------------------------------------------
@@ -199,6 +254,8 @@ type State = BTreeMap<String, Vec<u8>>;
 /// materialised only while they are hashed and while they are recovered).
 #[derive(Clone)]
 enum StateSpec {
+    /// a state given by content (second level)
+    Direct(std::sync::Arc<State>),
     Full(std::sync::Arc<SimFs>),
     /// the in-flight write `data[..upto]` applied on top of the snapshot
     Partial { fs: std::sync::Arc<SimFs>, ev: std::sync::Arc<Ev>, upto: usize, root: PathBuf },
@@ -216,6 +273,7 @@ fn rewrites_of(f: &SimFile) -> Vec<(usize, usize)> {
 
 fn materialise_spec(spec: &StateSpec) -> State {
     match spec {
+        StateSpec::Direct(s) => (**s).clone(),
         StateSpec::Full(fs) => full_state(fs),
         StateSpec::Partial { fs, ev, upto, root } => {
             let mut f2 = (**fs).clone();
@@ -487,7 +545,7 @@ fn judge_state(spec: &CrashSpec, cp: &CrashPoint, cfg: &WCfg, obs: &RecoveryObs,
         let mut admissible = true;
         for (bi, id) in blobs.iter().enumerate() {
             let acked = cp.acked_per_blob.get(id).copied().unwrap_or(0);
-            let file_exists = state.contains_key(&format!("t.{id}.blob"));
+            let file_exists = state.contains_key(&format!("t.{id}.blob")) || state.contains_key(&format!("corrupted/t.{id}.blob"));
             match choice[bi] {
                 None => {
                     if cp.sealed.contains(id) {
@@ -616,7 +674,8 @@ async fn recover_one(cfg: WCfg, state: State, keys: Vec<KeyId>) -> RecoveryObs {
     obs.corrupted_count = w.s().corrupted_blobs_count();
     for (id, p) in crate::blobfile::blob_files(&dir.join("corrupted")) {
         let bytes = std::fs::read(&p).unwrap_or_default();
-        let identical = state.get(&format!("t.{id}.blob")).map_or(false, |b| *b == bytes);
+        // (second level: the first recovery may already have moved the file)
+        let identical = state.get(&format!("t.{id}.blob")).map_or(false, |b| *b == bytes) || state.get(&format!("corrupted/t.{id}.blob")).map_or(false, |b| *b == bytes);
         obs.quarantined.insert(id, identical);
         // what the recovery tool brings back
         let outp = dir.join(format!("recovered.{id}.out"));
@@ -718,10 +777,13 @@ struct Batch {
     states: Vec<(String, State)>,
 }
 
-async fn batch_task(spec: CrashSpec, cfgs: Vec<WCfg>, batch: Vec<(usize, String, State)>) -> Vec<(usize, usize, RecoveryObs)> {
+async fn batch_task(spec: CrashSpec, cfgs: Vec<WCfg>, batch: Vec<(usize, String, State, Option<usize>)>) -> Vec<(usize, usize, RecoveryObs)> {
     let mut out = Vec::new();
-    for (si, _, state) in batch {
+    for (si, _, state, only_cfg) in batch {
         for (ci, cfg) in cfgs.iter().enumerate() {
+            if only_cfg.map_or(false, |o| o != ci) {
+                continue;
+            }
             let (c, s, k) = (cfg.clone(), state.clone(), spec.keys.clone());
             let h = pearl::verif::spawn("variant", async move { recover_one(c, s, k).await });
             let obs = match h.await {
@@ -752,6 +814,7 @@ pub struct CrashStats {
     pub recoveries: usize,
     pub kill_states: usize,
     pub power_loss_states: usize,
+    pub second_level_states: usize,
     pub violations: usize,
     pub violations_by_kind: BTreeMap<String, usize>,
     pub samples: Vec<String>,
@@ -794,6 +857,8 @@ pub fn run(specs: &[CrashSpec], threads: usize, max_states_per_history: usize, o
         cp: CrashPoint,
         name: String,
         state: StateSpec,
+        /// second-level states are recovered under the configuration of the interrupted recovery
+        only_cfg: Option<usize>,
     }
     // history by history: the states of one history are built, recovered, judged and dropped
     for spec in specs.iter() {
@@ -906,11 +971,71 @@ pub fn run(specs: &[CrashSpec], threads: usize, max_states_per_history: usize, o
                         cp: CrashPoint { model: m.clone(), acked_per_blob: acked_per_blob.clone(), sealed: sealed.clone(), kill },
                         name,
                         state: sp,
+                        only_cfg: None,
                     });
                 }
             }
         }
         let _ = rec.outcomes;
+        // second level: the recovery from a first-level state is itself killed after each of its
+        // file operations (index regeneration dumps, quarantine renames, creation of a new blob)
+        if spec.second_level_parents > 0 {
+            let mut parents: Vec<usize> = (0..work.len()).filter(|i| work[*i].cp.kill).collect();
+            let others: Vec<usize> = (0..work.len()).filter(|i| !work[*i].cp.kill).collect();
+            // power-loss parents: spread evenly
+            let room = spec.second_level_parents.saturating_sub(parents.len());
+            if room > 0 && !others.is_empty() {
+                let step = (others.len() / room).max(1);
+                parents.extend(others.iter().step_by(step).take(room));
+            }
+            parents.truncate(spec.second_level_parents);
+            let jobs: Vec<(usize, usize)> = parents.iter().flat_map(|p| [0usize, 2].into_iter().map(move |ci| (*p, ci))).collect();
+            let next = AtomicUsize::new(0);
+            let found: Mutex<Vec<(usize, usize, usize, State)>> = Mutex::new(Vec::new());
+            let failures: Mutex<Vec<String>> = Mutex::new(Vec::new());
+            std::thread::scope(|sc| {
+                for _ in 0..threads.max(1) {
+                    sc.spawn(|| loop {
+                        let j = next.fetch_add(1, Ordering::Relaxed);
+                        if j >= jobs.len() {
+                            break;
+                        }
+                        let (p, ci) = jobs[j];
+                        let st = materialise_spec(&work[p].state);
+                        match record_recovery(&cfgs[ci], &st, spec.io_mode) {
+                            Ok((events, root)) => {
+                                let mut fs2 = simfs_of(&st);
+                                let mut out = Vec::new();
+                                for (ei, ev) in events.iter().enumerate() {
+                                    fs2.apply(ev, &root);
+                                    out.push((p, ci, ei, full_state(&fs2)));
+                                }
+                                found.lock().unwrap().extend(out);
+                            }
+                            Err(e) => failures.lock().unwrap().push(e),
+                        }
+                    });
+                }
+            });
+            for e in failures.into_inner().unwrap() {
+                violations.push(CrashViolation { spec: spec.clone(), crash_after_event: 0, state: String::new(), config: String::new(), findings: vec![finding("machinery", e)] });
+            }
+            let mut found = found.into_inner().unwrap();
+            found.sort_by(|a, b| (a.0, a.1, a.2).cmp(&(b.0, b.1, b.2)));
+            for (p, ci, ei, st2) in found {
+                let digest = state_digest(&st2) ^ if work[p].cp.kill { 0x9e37 } else { 0 } ^ ((ci as u64 + 1) << 56);
+                if seen.insert(digest) {
+                    stats.second_level_states += 1;
+                    work.push(Work {
+                        crash_after: work[p].crash_after,
+                        cp: work[p].cp.clone(),
+                        name: format!("{} ; then killed after file operation {ei} of the recovery (validate_data={})", work[p].name, cfgs[ci].validate_data),
+                        state: StateSpec::Direct(Arc::new(st2)),
+                        only_cfg: Some(ci),
+                    });
+                }
+            }
+        }
         stats.distinct_states += work.len();
         // recover every state under every configuration (batches of states per execution)
         let batch_size = 24;
@@ -925,7 +1050,7 @@ pub fn run(specs: &[CrashSpec], threads: usize, max_states_per_history: usize, o
                         break;
                     }
                     let states: Vec<State> = batches[bi].iter().map(|wi| materialise_spec(&work[*wi].state)).collect();
-                    let items: Vec<(usize, String, State)> = batches[bi].iter().zip(states.iter()).map(|(wi, st)| (*wi, work[*wi].name.clone(), st.clone())).collect();
+                    let items: Vec<(usize, String, State, Option<usize>)> = batches[bi].iter().zip(states.iter()).map(|(wi, st)| (*wi, work[*wi].name.clone(), st.clone(), work[*wi].only_cfg)).collect();
                     let mut cfg = CtlConfig::sequential(IoMode::Inplace);
                     cfg.auto_clock = None;
                     let (cfgs2, spec2) = (cfgs.clone(), spec.clone());
